@@ -30,6 +30,9 @@ BasesConfusable == {Tr(<<0, 1, 1, 3, 0, 5, 6, 6, 8>>, <<"g", "p1", "g", "p2", "g
                     Tr(<<0, 1, 2, 2, 4, 1, 6, 7, 7, 9>>, <<"g", "g", "p1", "g", "p2", "g", "g", "p1", "g", "p2">>),
                     Tr(<<0, 1, 1, 3, 0, 5, 5, 7, 8>>, <<"g", "p1", "g", "v", "g", "p1", "g", "g", "v">>)}
 KindsPlain == {"p1", "p2", "ext"}
+\* "dex": the Def-expand group of the very definition (and value) the tree's Def tags use - an element of its own as far as the
+\* rules of this module go (the configuration holds no Onset / Offset, where it would count as the definition)
+KindsDex == {"p1", "def", "dex"}
 \* the group rules of Delay / Duration with a SECOND tag of the same name and another value
 KindsTL == {"p1", "def", "on", "dur", "del", "del2", "dur2"}
 BasesTL == {Tr(<<0, 1, 1, 3>>, <<"g", "dur", "g", "p1">>), Tr(<<0, 1, 1, 1, 4>>, <<"g", "del", "dur", "g", "p1">>),
